@@ -110,6 +110,7 @@ def units(tier, seed):
             us.append({'kind': 'vecpoly', 'N': N, 'driver': drv, 'tier': tier, 'seed': seed})
     us.append({'kind': 'dtype', 'tier': tier, 'seed': seed})
     us.append({'kind': 'repeat', 'tier': tier, 'seed': seed})
+    us.append({'kind': 'layout', 'tier': tier, 'seed': seed})
     progs = [p for p in PR.depth1()]
     for i in range(0, len(progs), 40):
         us.append({'kind': 'smooth', 'progs': progs[i:i + 40], 'tier': tier, 'seed': seed})
@@ -349,6 +350,14 @@ def vec_forms(N, L):
         fs.append(('dot(M,M)', lambda x: algopy.dot(Mx(x), Mx(x) + cmat(N, N).T)))
         fs.append(('dot(V,dot(M,V))', lambda x: algopy.dot(x * cvec(N), algopy.dot(Mx(x), x)) * cvec(2)))
         fs.append(('outer(V,V)', lambda x: algopy.outer(x, x * cvec(N) + 1.0)))
+        # structure operations with non-default offsets on a non-symmetric polynomial matrix
+        Ox = lambda x: algopy.outer(x, x * cvec(N) + 1.0)
+        for k in (-2, -1, 1, 2):
+            fs.append(('triu(outer,%d)' % k, lambda x, k=k: algopy.triu(Ox(x), k)))
+            fs.append(('tril(outer,%d)' % k, lambda x, k=k: algopy.tril(Ox(x), k)))
+        for k in (-1, 0, 1):
+            fs.append(('diag(outer,%d)' % k, lambda x, k=k: algopy.diag(Ox(x), k) * cvec(max(N - abs(k), 0)) if N - abs(k) > 0 else x * 1.0))
+            fs.append(('diag(V,%d)*M' % k, lambda x, k=k: algopy.diag(x * x, k)[:N, :N] * cmat(N, N)))
         # constants and polynomials of rank 3 (cubic shapes, not symmetric in any pair of axes)
         C3 = np.array([(-1) ** (i + j) * (1 + i + 2 * j + 4 * k) for i in range(N) for j in range(N) for k in range(N)], dtype=float).reshape(N, N, N)
         C32 = C3[:, :, :2] if N >= 2 else C3
@@ -571,6 +580,59 @@ def run_dtype(c):
                 c.fail('C09|dtype|raises|x %s|%s' % (kn, vk), case, {'error': '%s: %s' % (type(ex).__name__, str(ex)[:160])})
 
 
+def run_layout(c):
+    """the seed point given as a NON-CONTIGUOUS view (reversed, strided, Fortran-ordered / transposed matrix argument):
+    every seeding driver must give what it gives for a contiguous copy of the same values, and the analytic derivative"""
+    def f(x):
+        return x[0] * x[1] * x[2] + x[0] ** 3 - 2.0 * x[1] * x[1] * x[2] + x[3] * x[0]
+    xc = np.array([2.0, -1.0, 3.0, 0.5])
+    v = np.array([1.0, 2.0, -1.0, 0.5])
+    N = 4
+    grad = np.array([xc[1] * xc[2] + 3 * xc[0] ** 2 + xc[3], xc[0] * xc[2] - 4 * xc[1] * xc[2], xc[0] * xc[1] - 2 * xc[1] ** 2, xc[0]])
+    views = {}
+    views['reversed'] = np.array(xc[::-1])[::-1]
+    big = np.zeros(2 * N)
+    big[::2] = xc
+    views['strided'] = big[::2]
+    vv = {'reversed': np.array(v[::-1])[::-1], 'strided': np.repeat(v, 2)[::2]}
+    drivers = [('jacobian', lambda x, w: UTPM.extract_jacobian(f(UTPM.init_jacobian(x)))),
+               ('jac_vec', lambda x, w: UTPM.extract_jac_vec(f(UTPM.init_jac_vec(x, w)))),
+               ('hessian', lambda x, w: UTPM.extract_hessian(N, f(UTPM.init_hessian(x)))),
+               ('hess_vec', lambda x, w: UTPM.extract_hess_vec(N, f(UTPM.init_hess_vec(x, w)))),
+               ('tensor2', lambda x, w: UTPM.extract_tensor(N, f(UTPM.init_tensor(2, x)))),
+               ('tensor3', lambda x, w: UTPM.extract_tensor(N, f(UTPM.init_tensor(3, x)), as_full_matrix=False))]
+    for nm, drv in drivers:
+        ref = np.array(drv(xc.copy(), v.copy()), dtype=float)
+        if nm == 'jacobian':
+            c.check('layout', 'contiguous jacobian vs closed form', ref, grad, 1.0, {'driver': nm})
+        for lay, xv in views.items():
+            case = {'driver': nm, 'layout': lay}
+            try:
+                got = np.array(drv(xv, vv[lay]), dtype=float)
+            except Exception as ex:
+                c.fail('C09|layout|%s|raises' % nm, case, {'error': str(ex)[:160]})
+                continue
+            c.check('layout', '%s|point is a %s view' % (nm, lay), got, ref, 1.0, case)
+    # matrix-valued argument: g(X) = sum(X * W) + X[0,1] * X[1,0] * X[1,2]; seeds are laid out like X.ravel()
+    W = np.arange(1.0, 7.0).reshape(2, 3)
+    Xc = np.array([[2.0, -1.0, 0.5], [3.0, 1.5, -2.0]])
+
+    def g(X):
+        return algopy.sum(X * W) + X[0, 1] * X[1, 0] * X[1, 2]
+    G = W.copy()
+    G[0, 1] += Xc[1, 0] * Xc[1, 2]
+    G[1, 0] += Xc[0, 1] * Xc[1, 2]
+    G[1, 2] += Xc[0, 1] * Xc[1, 0]
+    for lay, Xv in (('C', Xc.copy()), ('Fortran-ordered', np.asfortranarray(Xc)), ('transposed view', np.ascontiguousarray(Xc.T).T)):
+        case = {'driver': 'jacobian', 'layout': lay, 'argument': 'matrix'}
+        try:
+            got = np.array(UTPM.extract_jacobian(g(UTPM.init_jacobian(Xv))), dtype=float)
+        except Exception as ex:
+            c.fail('C09|layout|matrix argument|raises', case, {'error': str(ex)[:160]})
+            continue
+        c.check('layout', 'matrix argument|%s' % ('contiguous' if lay == 'C' else 'non-contiguous'), got.reshape(-1), G.reshape(-1), 1.0, case)
+
+
 def run_repeat(c):
     """extraction is a pure function of the propagated object: extracting twice gives the same answer and leaves it intact"""
     def f(x):
@@ -610,6 +672,9 @@ def run_unit(u):
         return c.out
     if u['kind'] == 'repeat':
         run_repeat(c)
+        return c.out
+    if u['kind'] == 'layout':
+        run_layout(c)
         return c.out
     if u['kind'] == 'vecpoly':
         run_vecpoly(c, u['N'], u['driver'], u['tier'])
